@@ -140,6 +140,11 @@ class Oracle(object):
                       '(plan %r, pools %r)' % (op, self.plan, [H.POOL_NAMES[p] for p in pools]), 'C17_order')
         if task_exp and task_exp['kind'] == 'after_prepare':
             self.after_prepare_outcome(task_exp, pre_exc, sends, st, op, pre_queue)
+            if self.which == 'C19' and pre_exc is not None and (sends or len(env.queue) > len(pre_queue) - 1):
+                # the request had already failed (e.g. id mismatch on a concurrent attempt): whatever the answer to this
+                # PREPARE, nothing further is sent or scheduled for it
+                self.flag('after_failure.message_sent', 'the request had already failed, yet the answer %r to the PREPARE on host %d '
+                          'caused %r to be sent (%r)' % (task_exp['resp'], task_exp['host'], sends, op), 'C19_prepare_error_fails_and_stops')
         # ------------------------------------------------ C17: exhaustion
         if self.which == 'C17' and st['exc'] and st['exc'][0] == 5 and not (pre_state and pre_state['exc'] == st['exc']):
             keys = [st['exc'][2 + i] for i in self.err_offsets(st['exc'])]
